@@ -332,6 +332,47 @@ Theorem C13_handlers_match_source :
 Proof. exact handlers_match_source. Qed.
 Print Assumptions C13_handlers_match_source.
 
+(* ---------------------------------------------------------------- sessions across connections *)
+(* Manager.sessions over any sequence of pairings, session ends and disconnections, on any handles
+   (handles are reused): no session stays registered for a connection that has gone down *)
+Theorem C13_no_stale_session : forall ops, mgr_ok (mgr_run ops) = true.
+Proof. exact mgr_always_ok. Qed.
+Print Assumptions C13_no_stale_session.
+
+Theorem C13_disconnect_ends_session : forall g h,
+  find_session h (mg_sessions (mgr_step g (OpDisconnect h))) = None.
+Proof. exact disconnect_ends_session. Qed.
+Print Assumptions C13_disconnect_ends_session.
+
+(* a pairing on a reused handle starts from a fresh, not completed session, whether this device
+   initiates (Manager.pair) or receives the Pairing Request (Manager.on_smp_pdu) *)
+Theorem C13_fresh_session_after_disconnect : forall g h,
+  (forall s, In s (mg_sessions g) -> ms_id s < mg_next g) ->
+  let g1 := mgr_step g (OpDisconnect h) in
+  (exists s, find_session h (mg_sessions (mgr_step g1 (OpPair h))) = Some s /\ ms_id s = mg_next g /\ ms_completed s = false) /\
+  (exists s, find_session h (mg_sessions (mgr_step g1 (OpPdu h true))) = Some s /\ ms_id s = mg_next g /\ ms_completed s = false).
+Proof. exact fresh_session_after_disconnect. Qed.
+Print Assumptions C13_fresh_session_after_disconnect.
+
+(* sparing completed sessions at disconnection (seeded change C13-e) breaks both *)
+Theorem C13_spare_completed_refuted :
+  let g := fold_left mgr_step_spare [OpPdu 1 true; OpEnded 1 false; OpDisconnect 1] mgr0 in
+  mgr_ok g = false /\
+  exists s, find_session 1 (mg_sessions (mgr_step_spare g (OpPdu 1 true))) = Some s /\ ms_completed s = true.
+Proof. exact spare_completed_refuted. Qed.
+Print Assumptions C13_spare_completed_refuted.
+
+(* Session.on_disconnection, Session.on_pairing_failure, Manager.on_session_end, Manager.pair and
+   Manager.on_smp_pdu maintain the table the way [mgr_step] assumes *)
+Theorem C13_session_table_matches_source :
+  session_on_disconnection_source = session_on_disconnection_reading /\
+  session_on_pairing_failure_source = session_on_pairing_failure_reading /\
+  manager_on_session_end_source = manager_on_session_end_reading /\
+  manager_pair_source = manager_pair_reading /\
+  manager_on_smp_pdu_source = manager_on_smp_pdu_reading.
+Proof. exact session_table_matches_source. Qed.
+Print Assumptions C13_session_table_matches_source.
+
 (* ---------------------------------------------------------------- the hypotheses are satisfiable *)
 Theorem C13_toolbox_satisfiable : toolbox_ok term_toolbox.
 Proof. exact term_toolbox_ok. Qed.
